@@ -1569,8 +1569,13 @@ class MatlabWrapper(CheckMixin, FormatMixin):
                                unwrap=unwrap)),
                                                   prefix='  ')
 
+                # The routine names are built in wrap_class_properties as
+                # <class>_get_<property>_<id> and <class>_set_<property>_<id>;
+                # class and property names may contain "_get_"/"_set_" too.
+                accessor_name = method_name.rsplit('_', 1)[0]
+
                 # Getter
-                if "_get_" in method_name:
+                if accessor_name.endswith("_get_" + extra.name):
                     return_body = self.wrap_collector_property_return(
                         extra, instantiated_class=collector_func[1])
 
@@ -1587,7 +1592,7 @@ class MatlabWrapper(CheckMixin, FormatMixin):
                     body += getter
 
                 # Setter
-                if "_set_" in method_name:
+                if accessor_name.endswith("_set_" + extra.name):
                     is_ptr_type = self.can_be_pointer(extra.ctype) and \
                         not self.is_enum(extra.ctype, collector_func[1])
                     return_body = '  obj->{0} = {1}{0};'.format(
